@@ -209,7 +209,7 @@ func init() {
 				gen:       GenOpts{Modes: []int{ModeDAG, ModeWorkflow}, MaxNodes: 7, Depth: 2, Streams: true, Yields: 1, State: 0},
 				paradigms: []int{PInvoke, PInvoke, PStream, PCollect, PTransform}})
 		},
-		Rule: "each run draws an AllPredecessor graph or a Workflow (control+data, data-only and control-only dependencies, field mappings, static values, single and multi-way branches incl. empty selections, converging branches, nested graphs), one call and one schedule; compared with the reference trigger/skip interpreter (result or error class, multiset of executions, at most once)",
+		Rule: "each run draws an AllPredecessor graph or a Workflow (control+data, data-only and control-only dependencies, field mappings, static values, single and multi-way branches incl. empty selections, converging branches, nested graphs), one call and one schedule; compared with the reference trigger/skip interpreter (result or error class, multiset of executions, at most once); workflow lambdas may carry an output key and successors may map nested field paths",
 		Real: graphReal, Stub: graphStub,
 		Faults: []string{"node completion order (eager: who finishes first)", "map-order perturbation", "skip cascades"},
 	})
